@@ -17,7 +17,7 @@ RULE = (
     "(|n| <= 99999) or decimal with <= 2 places; denominator 1..999; reduced fraction parts < 1e6; all sign "
     "patterns): float(fv) == number + numerator/denominator in exact rational arithmetic (4 ulp); the six order "
     "operators between two such values == the order of the exact rationals; CreateFromString(str(fv)) == fv and "
-    "CreateFromString(GetLocalizedString()) == fv; copy.copy == and independent. CreateFromFloat(v) for floats with "
+    "CreateFromString(GetLocalizedString()) == fv; copy.copy == and independent; after editing the parts in place (numerator / denominator setters, SetNumber, SetFraction, item assignment fraction[0] / fraction[1], augmented assignment on a Fraction) float(), the order operators and the text denote the new amount, and values built or parsed without a fraction part do not share one. CreateFromFloat(v) for floats with "
     "<= 8 significant decimals, decimal exponent -12..12: float(result) == v (rel 1e-9). (B) Fraction + - * / % abs "
     "neg **n (|n|<=4) and the six comparisons, also with int/float operands on either side, against "
     "fractions.Fraction on the decimal literals - exactly. (C) FractionScalar(fv,u): GetValue(v), db.Convert of a "
@@ -80,7 +80,7 @@ class ValueChecker:
 
     def check_value(self, case):
         """case: a (number, num, den), b (same)"""
-        from barril.basic.fraction import FractionValue
+        from barril.basic.fraction import Fraction, FractionValue
 
         ctx = self.ctx
         a_spec, b_spec = tuple(case["a"]), tuple(case["b"])
@@ -141,6 +141,16 @@ class ValueChecker:
         c.SetFraction((1, 2))
         if float(c) != 4.5:
             ctx.fail("float_stale_after_editing_parts", case, "after SetFraction((1,2)) on 4 3/8: float() = %r" % float(c))
+        # item assignment is the third way to edit a fraction in place (fraction[0] numerator, fraction[1] denominator)
+        ctx.ev()
+        str(c), c < FractionValue(5), float(c.fraction)
+        c.fraction[0] = 3
+        c.fraction[1] = 4
+        if float(c) != 4.75 or float(c.fraction) != 0.75 or str(c) != "4 3/4" or not (c > FractionValue(4.5)) or c.fraction != Fraction(3, 4):
+            ctx.fail("float_stale_after_editing_parts:item_assignment", case, "after fraction[0] := 3, fraction[1] := 4 on 4 1/2: float() = %r, float(fraction) = %r, str() = %r" % (float(c), float(c.fraction), str(c)))
+        c.fraction[0] = 0
+        if float(c) != 4.0 or str(c) != "4" or FractionValue.CreateFromString(str(c)) != c:
+            ctx.fail("float_stale_after_editing_parts:item_assignment", case, "after fraction[0] := 0 on 4 3/4: float() = %r, str() = %r" % (float(c), str(c)))
         # values parsed from texts without a fraction part (and built without one) do not share their zero fraction
         ctx.ev()
         p1 = FractionValue.CreateFromString("3")
